@@ -77,4 +77,14 @@ CHECKS = {
             {"name": "fuzz", "run": "FuzzHeader", "kind": "fuzz", "tiers": ["thorough"], "fuzztime": {"thorough": "60s"}, "shards": 1, "timeout": {"thorough": 400}},
         ],
     },
+    "C13": {
+        "pkg": "c13", "level": "exploration",
+        "rule": "grammar-based generation: a valid definition is built field by field from a drawn Choice (schedule in string/list/map form, env map/list, params, handler subsets, functions+call, executor string/map with nested config, script, sub-workflow, preconditions incl. re: patterns, signalOnStop, retry/repeat policies, mail/smtp, misc) and 0..3 type-confusion mutations are applied at drawn tree positions (replace by one of 36 hostile values: scalars, null, lists, maps, nested list of maps, .nan/.inf, 70 kB string, invalid regex/cron/signal, unknown schedule key, non-string key; delete, duplicate, re-nest, add an unknown key); every text goes through LoadYAML, LoadMetadata, LoadWithoutEval and (grammar inputs only, whitelisted substitutions) the evaluating Load; plus the repository's 35 fixture files and hostile constants as byte inputs, and native go test -fuzz on the bytes in the thorough tier. Oracle: each entry point returns an error or a DAG (panic / nil,nil / >5 s twice = violation); an accepted DAG has named steps+handlers with something to execute, parsed cron schedules accepted by a fresh standard parser, valid signal names, a status that serialises to JSON and round-trips, conditions that evaluate without panic, and a graph build that returns. Non-trivial: input decodes as a YAML mapping AND (accepted OR rejected by the builder rather than the YAML decoder) AND >=1 mutation (or raw bytes). Distinct: hash of the YAML text.",
+        "assumptions": ["byte inputs containing a command substitution outside a whitelist of harmless commands are skipped (counted) — the loader runs as root", "only grammar-generated definitions are loaded through the evaluating entry point"],
+        "stages": [
+            {"name": "corpus", "run": "TestCorpus", "kind": "plain", "shards": 1, "timeout": 300},
+            sim_stage(1500, 60000, shrinktime="20s"),
+            {"name": "fuzz", "run": "FuzzLoad", "kind": "fuzz", "tiers": ["thorough"], "fuzztime": {"thorough": "150s"}, "shards": 1, "timeout": {"thorough": 900}},
+        ],
+    },
 }
